@@ -31,7 +31,7 @@ from ..ref import cpp
 ID = "C18"
 FAULTS = ["quote-missing", "angle-missing", "unreached-missing", "missing-in-shared-header", "missing-in-header-included-twice", "same-missing-twice",
           "unknown-directive-reached", "unknown-directive-unreached", "harmless-directives", "db-missing-file", "unknown-compiler", "unknown-flag",
-          "unknown-directive-in-uncompiled-file", "angle-resolvable-for-one-tu-only"]
+          "unknown-directive-in-uncompiled-file", "angle-resolvable-for-one-tu-only", "repeated-db-events"]
 
 
 def build(root, faults):
@@ -71,6 +71,11 @@ def build(root, faults):
           {"file": "src/other.c", "args": inc, "compiler": "weirdcc" if "unknown-compiler" in F else "/usr/bin/gcc"}]
     if "db-missing-file" in F:
         p1.append({"file": "src/gone.c", "args": inc})
+    if "repeated-db-events" in F:
+        # one warning per occurrence: a later entry naming the same unknown compiler (through another path), the same
+        # unknown flag and the same missing file is warned about again
+        p1.append({"file": "src/other.c", "args": inc + ["-DREP", "-fweird"], "compiler": "/opt/bin/weirdcc"})
+        p1.append({"file": "src/gone.c", "args": inc})
     p2 = [{"file": "src/main.c", "args": inc + incx + ["-DP2"]}]
     return {"p1": p1, "p2": p2}
 
@@ -104,13 +109,15 @@ def model(root, plats, faults):
             if m and m.group(1) not in ("include", "define", "undef", "if", "ifdef", "ifndef", "elif", "else", "endif", "pragma", "line", "warning", "error"):
                 ev[("unknown-directive", os.path.relpath(f, rr), ln, m.group(1), None)] = 1
     F = set(faults)
-    if "db-missing-file" in F:
-        ev[("missing-file", "src/gone.c", None, None, None)] = 1
-    if "unknown-compiler" in F:
-        ev[("unknown-compiler", None, None, "weirdcc", None)] = 1
-    if "unknown-flag" in F:
-        ev[("unknown-arguments", None, None, "-fweird", None)] = 1
+    rep = int("repeated-db-events" in F)
+    for fault, key in (("db-missing-file", ("missing-file", "src/gone.c", None, None, None)), ("unknown-compiler", ("unknown-compiler", None, None, "weirdcc", None)),
+                       ("unknown-flag", ("unknown-arguments", None, None, "-fweird", None))):
+        if int(fault in F) + rep:
+            ev[key] = int(fault in F) + rep
     return ev
+
+
+EXACT = ("missing-file", "unknown-compiler", "unknown-arguments")     # database-level events: exactly one warning per entry
 
 
 PATTERNS = [
@@ -180,7 +187,7 @@ def judge(root, faults, with_cli=True):
     if set(got) != set(exp):
         bad.append(("event-set", {"missing": _show({k: exp[k] for k in set(exp) - set(got)}), "unexpected": _show({k: got[k] for k in set(got) - set(exp)})}, _show(got)))
     for k in set(got) & set(exp):
-        if not (1 <= got[k] <= exp[k]):
+        if not (1 <= got[k] <= exp[k]) or (k[0] in EXACT and got[k] != exp[k]):
             bad.append(("multiplicity", f"{_ev(k)}: between 1 and {exp[k]}", got[k]))
     if other:
         bad.append(("unexpected-warning", "no other warning", other[:3]))
